@@ -477,10 +477,11 @@ def r6(repo, res):
     exon = (4, 19)  # RefSeq 0-based [4, 19): 5 codons
     ref_aa = "".join(prot[SEQ[i:i + 3]] for i in range(exon[0], exon[1] - (exon[1] - exon[0]) % 3, 3))
     n = 0
-    for strand in "+-":
+    gapped = next((c_ for c_ in CIGARS if "I" in c_ or "D" in c_), "M40")   # an alignment string with gaps: the maps are not an offset
+    for strand, cigar in [(st_, cg_) for st_ in "+-" for cg_ in dict.fromkeys(("M40", gapped))]:
         s_ = 1 if strand == "+" else -1
         try:
-            me, rev_comp = fold_init_basic(repo, strand, "M40")
+            me, rev_comp = fold_init_basic(repo, strand, cigar)
         except (Unfoldable, Raised) as e:
             res.err("C08.R6", f"Gene._init_basic outside folding language: {e}")
             return
@@ -497,6 +498,8 @@ def r6(repo, res):
             for alt in "ACGT":
                 if alt == b:
                     continue
+                if ridx not in me.ref_to_chr:
+                    continue   # a RefSeq base without counterpart in this genome build
                 g = me.ref_to_chr[ridx]
                 gop = f"{b}>{alt}" if s_ > 0 else f"{COMP[b]}>{COMP[alt]}"
                 try:
@@ -516,10 +519,10 @@ def r6(repo, res):
                     want = None
                 n += 1
                 if k != "return" or v != want:
-                    bad = bad or f"strand {strand}, RefSeq index {ridx} {b}>{alt} (genome {g}:{gop}): {k} {v!r}, expected {want!r}"
+                    bad = bad or f"strand {strand}, alignment {cigar}, RefSeq index {ridx} {b}>{alt} (genome {g}:{gop}): {k} {v!r}, expected {want!r}"
         res.ob("C08.R6", gf, gf, bad is None,
-               expected=f"strand {strand}: inferred effect of a genome-side substitution = amino-acid change of the RefSeq-side substitution it denotes",
-               found="agrees" if bad is None else bad, clause="amino-acid effect inference uses the same maps", key=f"inferred-effect:{strand}")
+               expected=f"strand {strand}, alignment {cigar}: inferred effect of a genome-side substitution = amino-acid change of the RefSeq-side substitution it denotes",
+               found="agrees" if bad is None else bad, clause="amino-acid effect inference uses the same maps", key=f"inferred-effect:{strand}" + ("" if cigar == "M40" else ":gapped"))
     res.count("C08.R6:substitutions folded", n)
 
 
@@ -588,6 +591,54 @@ def r5(repo, res):
     res.ob("C08.R5", f, loop, ok,
            expected="equivalent keys use the read parser's convention: insertion keyed at the base after it, deletion at its first deleted base; a deletion-insertion registers none",
            found=str(dict(eqs)), key="equivalent-keys")
+    # no reference file given: the routine writes its own FASTA + index for the realigner; the index must address the sequence it wrote,
+    # under the contig name handed to the realigner (also when the alignment file spells contigs with a prefix)
+    for prefix in ("", "chr"):
+        files = {}
+        made_n = []
+
+        def opn(name, mode="r"):
+            files[name] = []
+            return Obj(name=name)
+
+        def prt(*a, sep=" ", end="\n", file=None):
+            files[file.name].append(sep.join(str(x) for x in a) + end)
+
+        def VariantN(chrom, pos, ref, alt, reference):
+            made_n.append((chrom, reference))
+            return Obj(generate_equivalents=lambda: [], ref=ref, alt=alt)
+
+        size = lo + len(G) + 37
+        sam_ = Obj(get_reference_length=lambda name: size)
+        men = Obj(_indel_sites={(503, "insGG"): [0, 0]}, gene=SeqGene(G, lo), profile=Obj(indelpost=False, min_mapq=10, min_quality=10), _indel_sites_eqs={}, _prefix=prefix)
+        men.gene.chr = "1"
+        try:
+            Lifted(f, funcs={"Variant": VariantN, "pysam.FastaFile": lambda q: Obj(path=q), "open": opn, "print": prt})(men, "tmpdir", sam_, None)
+        except Unfoldable as e:
+            res.err("C08.R5", f"_realign_indels (own reference) outside folding language: {e}")
+            return
+        except Raised as e:
+            res.ob("C08.R5", f, loop, False, expected="own reference written", found=f"raises {e.kind}", key=f"own-reference:{prefix or 'plain'}")
+            continue
+        fa = "".join(next((v_ for k_, v_ in files.items() if k_.endswith(".fa")), []))
+        fai = "".join(next((v_ for k_, v_ in files.items() if k_.endswith(".fai")), [])).strip().split("\t")
+        problems = []
+        head, _, body = fa.partition("\n")
+        seq_line = body.split("\n")[0]
+        if not (head.startswith(">") and made_n and head[1:] == made_n[0][0] == prefix + "1"):
+            problems.append(f"FASTA header {head!r}, contig handed to the realigner {made_n[0][0] if made_n else None!r}, contig of the alignment file {prefix + '1'!r}")
+        if len(fai) != 5 or fai[0] != head[1:] or int(fai[1]) != size or int(fai[2]) != len(head) + 1 or int(fai[3]) != size or int(fai[4]) != size + 1:
+            problems.append(f"index line {fai}: expected name {head[1:]!r}, length {size}, offset {len(head) + 1} (first sequence byte), {size} bases per line of {size + 1} bytes")
+        if len(seq_line) != size or seq_line[lo:lo + len(G)] != G or set(seq_line[:lo]) - {"N"} or set(seq_line[lo + len(G):]) - {"N"}:
+            problems.append(f"sequence line of {len(seq_line)} bases does not hold the gene's lookup sequence at {lo}..{lo + len(G)} padded with N to {size}")
+        if made_n and not str(made_n[0][1].path).endswith(".fa"):
+            problems.append(f"realigner reads {made_n[0][1].path!r}")
+        res.ob("C08.R5", f, loop, not problems,
+               expected=f"contigs {'with' if prefix else 'without'} prefix, no reference given: the FASTA written for the realigner is named like the contig handed to it, its index "
+                        "addresses the first sequence byte, and the sequence is the gene's genome-oriented lookup sequence at its genome coordinates",
+               found="agrees" if not problems else "; ".join(problems),
+               clause="an insertion is located between the same two reference bases wherever it is consumed (database, indel realignment, long-read matching)",
+               key=f"own-reference:{prefix or 'plain'}")
     # indels inside repeats: every equivalent placement (found by brute force on the reference: all left-anchored insertions / deletions
     # that give the same haplotype) is registered under the key the read parser would produce for that placement -- position AND bases
     G2 = "ACGTATATCCAGAGAGTTCAAAG"
